@@ -1,6 +1,7 @@
 import TIV.C03.Proofs
 import TIV.C03.Generated
 import TIV.Common.Base64Proofs
+import TIV.C01.Model
 /-!
 # C03 — property theorems (kitty framing; iterm2 framing in a later section)
 Statements only use `getChunks` (the mirror of `Transmission.get_chunks`), `Base64.enc/dec`
@@ -138,6 +139,68 @@ theorem kitty_chunk_law (x : List Nat) (hb : ∀ a ∈ x, a < 256) :
 theorem o_key_iff_level (d : Control) (level : Nat) :
     ((d.withLevel level).o = some "z") ↔ level ≠ 0 := by
   unfold Control.withLevel; split <;> simp_all
+
+/-- LINES: the per-line strips stitch back to the whole image and each has `bytes_per_line`
+    bytes — for every raw image whose length is `rh` lines of `k` bytes -/
+theorem lines_stitch {α} (k : Nat) : ∀ (n : Nat) (raw : List α), raw.length = n * k →
+    (strips k n raw).flatten = raw ∧ (strips k n raw).length = n ∧ ∀ s ∈ strips k n raw, s.length = k := by
+  intro n
+  induction n with
+  | zero => intro raw h; simp at h; subst h; simp [strips]
+  | succ n ih =>
+    intro raw h
+    have hk : k ≤ raw.length := by rw [h, Nat.succ_mul]; omega
+    have := ih (raw.drop k) (by simp [h, Nat.succ_mul])
+    obtain ⟨h1, h2, h3⟩ := this
+    refine ⟨by simp [strips, h1], by simp [strips, h2], ?_⟩
+    intro s hs
+    simp only [strips, List.mem_cons] at hs
+    rcases hs with rfl | hs
+    · simp [List.length_take]; omega
+    · exact h3 s hs
+
+/-- LINES strip arithmetic: when the pixel height is a multiple of the number of lines (it is
+    `rendered_height × cell_height` by construction), `rh` strips of `bytes_per_line` bytes are
+    exactly the `width × height × bytes-per-pixel` bytes of the image -/
+theorem lines_bytes (width ch rh fmt : Nat) (hrh : 0 < rh) :
+    rh * bytesPerLine width (rh * ch) rh fmt = width * (rh * ch) * (fmt / 8) := by
+  unfold bytesPerLine
+  rw [Nat.mul_div_cancel_left ch hrh]
+  ac_rfl
+
+/-- WHOLE: the transmitted size is the render size if it has fewer pixels, else the original -/
+theorem whole_size (render orig : Nat × Nat) :
+    (render.1 * render.2 < orig.1 * orig.2 → minimalRenderSize render orig = render) ∧
+    (¬ render.1 * render.2 < orig.1 * orig.2 → minimalRenderSize render orig = orig) := by
+  unfold minimalRenderSize; constructor <;> intro h <;> simp [h]
+
+/-- the read-from-file gate is exactly the documented conjunction -/
+theorem usesFile_iff (g : FileGate) :
+    usesFile g = true ↔
+      (g.readFromFile = true ∧ g.animated = false ∧ g.readable = true ∧ g.whole = true ∧
+        g.origPixels ≤ g.renderPixels ∧
+        (g.modeNoAlpha = true ∨ (g.alphaIsFloat = true ∧ g.modePalette = false))) := by
+  unfold usesFile
+  simp [Bool.and_eq_true, Bool.or_eq_true, and_assoc]
+
+/-- KITTY command as the renderer builds it: the chunk law holds and the chunks decode to the
+    transmitted (compressed) payload, whatever the payload, size, format, z-index and level -/
+theorem kitty_cmd_payload (fmt width v z : Int) (rw r level : Nat) (p : List Nat) (hb : ∀ a ∈ p, a < 256) :
+    let k := C01.kittyCmd fmt width v z rw r level p
+    (∀ c ∈ k.chunks, c.2.length ≤ 4096 ∧ c.2.length % 4 = 0) ∧
+    Base64.dec ((k.chunks.map Prod.snd).flatten) = some p ∧ k.cols = rw ∧ k.rows = r := by
+  have h := kitty_chunk_law p hb
+  have h4096 : Generated.chunkSize = 4096 := by decide
+  rw [h4096] at h
+  exact ⟨h.1, h.2, rfl, rfl⟩
+
+/-- ITERM2 command as the renderer builds it: the `size=` key is the decoded payload length, the
+    footprint keys are the render size, and the payload decodes to the encoded image -/
+theorem iterm_cmd_payload (w h : Nat) (konsole : Bool) (p : List Nat) (hb : ∀ a ∈ p, a < 256) :
+    let c := C01.itermCmd w h konsole p
+    c.control = itermFrame p.length w h konsole ∧ Base64.dec c.payload = some p ∧
+    c.cols = w ∧ c.rows = h ∧ c.noMove = konsole :=
+  ⟨rfl, Base64.dec_enc p hb, rfl, rfl, rfl⟩
 
 /-- non-vacuity: a payload spanning exactly three chunks at a small size -/
 example : getChunks 4 [1, 2, 3, 4, 5, 6, 7, 8, 9] = [(true, [1, 2, 3, 4]), (true, [5, 6, 7, 8]), (false, [9])] := by
